@@ -8,12 +8,15 @@ struct GenOptions {
     // trigger avoidance for open known findings (DESIGN H8); all true when nothing is open
     bool allow_null_cb = true;
     bool allow_null_slot = true;
+    bool allow_both = true;
 };
 
 struct SweepConfig { int codec, m; uint32_t k, r, N1, pseed; };
 std::vector<SweepConfig> sweep_configs(const std::string &profile, uint64_t seed);
 uint64_t sweep_total(const std::string &profile, uint64_t seed);
 Plan generate_sweep_plan(uint64_t seed, uint64_t index, const GenOptions &opt);   // index -> (configuration, received subset)
+
+bool cold_candidate(uint64_t seed, uint64_t run);
 
 // plan = f(VERIF_SEED, run index, profile) and nothing else
 Plan generate_plan(uint64_t seed, uint64_t run, const GenOptions &opt);
